@@ -869,6 +869,28 @@ impl Harness for C19 {
                     }
                 }
             }
+            // A change of the limit between operations must leave the recorded
+            // peak alone (seeded change c19-r7b: set_limit clamped it). Nothing
+            // is allocated while the limit is lowered, so the ledger is not
+            // involved; on code whose set_limit only stores the limit this
+            // cannot fire.
+            {
+                let hw = sh2.ledger.lock().unwrap().hw;
+                sh2.alloc.set_limit(hw / 2);
+                let peak = sh2.alloc.get_max();
+                sh2.alloc.set_limit(sc2.limit as usize);
+                hist2.lock().unwrap().push(format!("set_limit({}); get_max(); set_limit({})", hw / 2, sc2.limit));
+                if peak < hw {
+                    sh2.ledger.lock().unwrap().fail(
+                        "peak-under-reported",
+                        format!(
+                            "at the end of the history, after set_limit({}): get_max() = {} but completed live allocations reached {} since the last reset",
+                            hw / 2, peak, hw
+                        ),
+                    );
+                    return;
+                }
+            }
             // End of history: exact usage, then release everything and expect zero.
             quiescent(&sh2, true, "at the end of the history");
             loop {
